@@ -240,13 +240,13 @@ func (el *eventloop) open(c *conn) error {
 	out, action := el.eventHandler.OnOpen(c)
 	if out != nil {
 		if err := c.open(out); err != nil {
-			return err
+			return el.close(c, os.NewSyscallError("write", err))
 		}
 	}
 
 	if !c.outboundBuffer.IsEmpty() && !el.engine.opts.EdgeTriggeredIO {
 		if err := el.poller.ModReadWrite(&c.pollAttachment, false); err != nil {
-			return err
+			return el.close(c, os.NewSyscallError("epoll_ctl mod", err))
 		}
 	}
 
